@@ -1,4 +1,5 @@
 import HeimdallModel.Model.FactoryOverride
+import HeimdallModel.Model.FactoryCel
 /-!
 # What a loaded rule *does*: the executed trace for the probe requests of the C14 correspondence check
 
@@ -14,13 +15,21 @@ step carries):
   succeeds with the subject it shows);
 * authorizers / contextualizers — `remote` / `generic` calling the recorder with the subject and the value `v` of
   their `values`; skipped when their condition is false for the probe; `cel` authorizers (flavour `silent`) call
-  nobody, and every expression the generator lets a cel or remote authorizer verify holds for every probe;
+  nobody.  Every expression the generator lets a remote authorizer verify holds for every probe; an expression of a
+  cel authorizer holds for every probe unless it reads the header `X-Deny` (`Cel.readsHeader`): then it is false
+  exactly for the probe that sends `X-Deny: 1` (`Probe.deny`), and the authorizer **refuses** that request — the
+  pipeline ends with an authorization error whose *source* is that authorizer (`Refusing`, `reached`);
 * finalizers — `header` finalizers: every header they show is rendered (`{{ .Subject.ID }}`) and added for the
   upstream; the common header `X-Fin` is reported in execution order (`fin`), all others sorted (`hdr`);
 * error handlers — `redirect` (flavour `redirect`, the location names the handler), `default` (flavour
   `passthrough`, the pipeline error is kept) or `www_authenticate` (flavour `challenge`: authentication error and a
   `WWW-Authenticate` header naming the realm it shows); the first applicable one handles the error, with none the
-  error is returned.
+  error is returned;
+* the **source** of an error (`Trace.src`) — the id of the mechanism the error came from, i.e. what `Error.Source`
+  is in the `if` of an `on_error` step (`cellib.WrapError`): for a failed authentication stage the authenticator
+  whose error ended the stage, for a refused request the authorizer that refused.  It is visible in the returned
+  error and in a pipeline error kept by a `default` error handler; `redirect` and `www_authenticate` handlers
+  replace the error (source empty).  This is how a mechanism that calls nobody shows *which* catalogue entry it is.
 
 These are the execution rules of `ruleImpl.Execute` and the composite pipelines specialised to that catalogue;
 they are validated by the correspondence run itself.
@@ -34,10 +43,12 @@ inductive Flavour
 
 abbrev Flavours := Kind → String → Flavour
 
-/-- one probe request: does the identity endpoint accept, is the header that falsifies all conditions sent -/
+/-- one probe request: does the identity endpoint accept, is the header that falsifies all conditions sent, is the
+header sent by which the request asks the cel authorizers to refuse it -/
 structure Probe where
   authnOk : Bool
   skip : Bool
+  deny : Bool := false
   deriving DecidableEq, Repr, Inhabited
 
 /-- what is recorded for one executed rule -/
@@ -48,10 +59,25 @@ structure Trace where
   ret : String := ""
   perr : String := ""
   upstream : Bool := false
+  /-- `Error.Source` of the returned error / the pipeline error, empty when there is none or it names nobody -/
+  src : String := ""
   deriving DecidableEq, Repr, Inhabited
 
 /-- what every mechanism of a pipeline shows -/
 abbrev Showing := Mech → Shown
+
+/-- which mechanisms verify an expression that is false for the probe asking to be refused -/
+abbrev Refusing := Mech → Bool
+
+/-- the expression trees of the expression texts in use -/
+abbrev CelTrees := Text → Option Cel
+
+/-- the header by which a probe asks to be refused -/
+def denyHeader : String := "X-Deny"
+
+/-- a mechanism verifies at least one expression that reads the deny header -/
+def refusing (sh : Showing) (Γ : CelTrees) : Refusing := fun m =>
+  (sh m).expressions.any fun src => ((Γ src).map (·.readsHeader denyHeader)).getD false
 
 def Mech.runs (m : Mech) (p : Probe) : Bool := !(m.conditional && p.skip)
 
@@ -71,15 +97,49 @@ def authnStage (sh : Showing) (fl : Flavours) (p : Probe) : List Mech → List S
         let rest := authnStage sh fl p ms
         (call :: rest.1, rest.2)
 
-/-- error pipeline: first applicable handler; `(returned error, pipeline error, headers)` -/
-def errorStage (sh : Showing) (fl : Flavours) (p : Probe) (kind : String) : List Mech → String × String × List String
-  | [] => (kind, "", [])
+/-- the authenticator whose error ends a failing authentication stage (`compositeSubjectCreator.Execute` returns the
+error of the last authenticator it tried); empty when the stage is empty or succeeds -/
+def authnBlame (sh : Showing) (fl : Flavours) (p : Probe) : List Mech → String
+  | [] => ""
   | m :: ms =>
-    if !m.runs p then errorStage sh fl p kind ms
-    else if fl .eh m.id == .passthrough then ("", kind, [])
+    if fl .authn m.id == .constant then ""
+    else if p.authnOk then ""
+    else if !(sh m).fallback then m.id
+    else if ms.isEmpty then m.id
+    else authnBlame sh fl p ms
+
+/-- what the error pipeline leaves behind -/
+structure Handled where
+  ret : String := ""
+  perr : String := ""
+  hdr : List String := []
+  src : String := ""
+  deriving DecidableEq, Repr, Inhabited
+
+/-- error pipeline on an error of the given kind raised by the mechanism `source`: first applicable handler -/
+def errorStage (sh : Showing) (fl : Flavours) (p : Probe) (kind source : String) : List Mech → Handled
+  | [] => { ret := kind, src := source }
+  | m :: ms =>
+    if !m.runs p then errorStage sh fl p kind source ms
+    else if fl .eh m.id == .passthrough then { perr := kind, src := source }
     else if fl .eh m.id == .challenge then
-      ("", "authentication", ["Www-Authenticate=Basic realm=" ++ String.ofList (sh m).realm])
-    else ("", "redirect:http://eh.test/" ++ m.id, [])
+      { perr := "authentication", hdr := ["Www-Authenticate=Basic realm=" ++ String.ofList (sh m).realm] }
+    else { perr := "redirect:http://eh.test/" ++ m.id }
+
+/-- the mechanism refuses the probe: it runs, it is a cel authorizer, the probe asks to be refused and one of its
+expressions listens -/
+def Mech.refuses (fl : Flavours) (den : Refusing) (p : Probe) (m : Mech) : Bool :=
+  m.runs p && fl m.kind m.id == .silent && p.deny && den m
+
+/-- `compositeSubjectHandler.Execute`: the mechanisms of the stage in order until one refuses — `(those that ran
+through, the one that refused)` -/
+def reached (fl : Flavours) (den : Refusing) (p : Probe) : List Mech → List Mech × Option Mech
+  | [] => ([], none)
+  | m :: ms =>
+    if m.refuses fl den p then ([], some m)
+    else
+      let r := reached fl den p ms
+      (m :: r.1, r.2)
 
 def handlerCalls (sh : Showing) (fl : Flavours) (p : Probe) (sub : String) (ms : List Mech) : List String :=
   (ms.filter fun m => m.runs p && fl m.kind m.id != .silent).map fun m =>
@@ -97,14 +157,19 @@ def otherHeaders (hs : List (String × String)) : List String :=
   (lines.toArray.qsort (· < ·)).toList
 
 /-- `ruleImpl.Execute` on a probe -/
-def execute (sh : Showing) (fl : Flavours) (e : Effective) (p : Probe) : Trace :=
+def execute (sh : Showing) (fl : Flavours) (den : Refusing) (e : Effective) (p : Probe) : Trace :=
   match authnStage sh fl p e.authn with
   | (calls, none) =>
-    let r := errorStage sh fl p "communication" e.eh
-    { calls := calls, ret := r.1, perr := r.2.1, hdr := r.2.2 }
+    let r := errorStage sh fl p "communication" (authnBlame sh fl p e.authn) e.eh
+    { calls := calls, ret := r.ret, perr := r.perr, hdr := r.hdr, src := r.src }
   | (calls, some sub) =>
-    let hs := finalizerHeaders sh p sub e.fin
-    { calls := calls ++ handlerCalls sh fl p sub e.sh, fin := (hs.filter (·.1 == "X-Fin")).map (·.2),
-      hdr := otherHeaders hs, upstream := e.upstream }
+    match reached fl den p e.sh with
+    | (ran, some m) =>
+      let r := errorStage sh fl p "authorization" m.id e.eh
+      { calls := calls ++ handlerCalls sh fl p sub ran, ret := r.ret, perr := r.perr, hdr := r.hdr, src := r.src }
+    | (ran, none) =>
+      let hs := finalizerHeaders sh p sub e.fin
+      { calls := calls ++ handlerCalls sh fl p sub ran, fin := (hs.filter (·.1 == "X-Fin")).map (·.2),
+        hdr := otherHeaders hs, upstream := e.upstream }
 
 end Heimdall.Factory
